@@ -40,8 +40,11 @@ func runC08(o *cli.Opts, run *evid.Run) {
 	n := o.Pick(20000, 1000000)
 	one := func(key string, r *rand.Rand) {
 		batch := r.Intn(41)
-		if r.Intn(10) == 0 {
+		switch r.Intn(40) {
+		case 0, 1, 2, 3:
 			batch = 0
+		case 4:
+			batch = []int{100, 255, 256, 257, 1000, 1023, 1024, 4096}[r.Intn(8)] // production-size batches
 		}
 		var classes []string
 		val := func() *big.Int {
